@@ -66,6 +66,7 @@ FunVal(f, u) ==
   LET n == Len(u)  s == Nums(u) IN
   IF AnyUndef(u) \/ (\E i \in DOMAIN u : Big(u[i])) THEN Bc(n, Undef) ELSE
   CASE f = "D"     -> [i \in 1..n |-> IF i = 1 THEN NaN ELSE RSub(u[i], u[i - 1])]
+    [] f = "D2"    -> [i \in 1..n |-> IF i = 1 \/ i = n THEN NaN ELSE RAdd(RSub(u[i + 1], RMul(R(2), u[i])), u[i - 1])]
     [] f = "I"     -> [i \in 1..n |-> RunSum(u, i)]
     [] f = "ABS"   -> [i \in 1..n |-> RAbs(u[i])]
     [] f = "SIGN"  -> [i \in 1..n |-> IF IsNaN(u[i]) THEN Undef ELSE IF u[i][1] >= 0 THEN One ELSE R(-1)]
